@@ -80,7 +80,13 @@ class VfErrorB(Exception):
     pass
 
 
-EXC = {"VfError": VfError, "VfErrorA": VfErrorA, "VfErrorB": VfErrorB, "ValueError": ValueError,
+def _c07_excs():
+    from vf.checks import C07
+
+    return {"E1": C07.E1, "E2": C07.E2, "E3": C07.E3}
+
+
+EXC = {**_c07_excs(), "VfError": VfError, "VfErrorA": VfErrorA, "VfErrorB": VfErrorB, "ValueError": ValueError,
        "KeyError": KeyError, "RuntimeError": RuntimeError}
 
 
@@ -273,6 +279,8 @@ async def _run_acts(ctx, ev, sp, prog, att, v, uid, bid):
                 return 42
             cv = f"{v}>{step}.r"
             extra = dict(act.get("pay") or {})
+            for fld in act.get("copy", []):
+                extra[fld] = ev.get(fld, None)
             if t in ("StopEvent", "Done"):
                 res = act.get("result", "v")
                 if res == "v":
